@@ -1679,7 +1679,9 @@ class Executor:
             mem = empty_set(esort)
             for z in zs:
                 mem = z3.Store(mem, z, True)
-        return Coll(kind, esort, mem, items=list(items), nodup=(len(items) <= 1))
+        distinct_names = all(z.decl().kind() == z3.Z3_OP_UNINTERPRETED and z.decl().name().startswith("str:") for z in zs if z.sort() == Atom) \
+            and all(z.sort() == Atom for z in zs) and len({z.decl().name() for z in zs}) == len(zs)
+        return Coll(kind, esort, mem, items=list(items), nodup=(kind in ("set", "frozenset") or len(items) <= 1 or distinct_names))
 
     def ex_Dict(self, node, st):
         if node.keys:
@@ -1967,8 +1969,29 @@ class Executor:
                 return r
         raise Unsupported(f"{v!r} is not iterable in the model")
 
+    def materialise_table(self, t, st):
+        """{"k": v, ...} literal whose values are names or sets of names: a concrete dict"""
+        ks = [str_const(k.value) for k in t.node.keys]
+        vs = [self.ev(v, st) for v in t.node.values]
+        dom = empty_set(Atom)
+        for k in ks:
+            dom = z3.Store(dom, k, True)
+        if all(isinstance(v, Scalar) and v.z.sort() == Atom for v in vs):
+            val = z3.K(Atom, vs[0].z)
+            for k, v in zip(ks, vs):
+                val = z3.Store(val, k, v.z)
+            return DictV(Atom, "scalar", dom, val, vsort=Atom)
+        if all(isinstance(v, Coll) and v.esort == Atom and v.mem is not None for v in vs):
+            val = z3.K(Atom, empty_set(Atom))
+            for k, v in zip(ks, vs):
+                val = z3.Store(val, k, v.mem)
+            return DictV(Atom, ("set", Atom), dom, val)
+        raise Unsupported("dict literal with values other than names / sets of names")
+
     def ex_Attribute(self, node, st):
         o = self.ev(node.value, st)
+        if isinstance(o, LiteralTable):
+            o = self.materialise_table(o, st)
         if isinstance(o, Obj):
             if node.attr in o.fields:
                 return o.fields[node.attr]
@@ -2347,19 +2370,33 @@ class Executor:
                     continue
                 if not self.entails(st, cond, 2000):
                     raise NeedSplit(cond)
-                old = c.snapshot(self, st, cargs)
-                c.havoc(self, st, cargs)
-                st.assume(c.on_raise(self, st, cargs, old, cls), f"contract:{c.qual} raises {cls}")
+                if not getattr(c, "raises_leave_state", False):
+                    old = c.snapshot(self, st, cargs)
+                    c.havoc(self, st, cargs)
+                    st.assume(c.on_raise(self, st, cargs, old, cls), f"contract:{c.qual} raises {cls}")
+                # (a callee whose contract proves "rejected => nothing changed" keeps the very same state terms)
                 raise Raised(cls)
             # callee would raise: the caller must exclude it
             self.oblige(st, z3.Not(cond), f"call.{c.qual}.no-{cls}")
+        if not getattr(c, "pure", False) and type(c).havoc is Contract.havoc:
+            # a callee that may change state must say which state it havocs: without that its postcondition would constrain the
+            # pre-state terms and could contradict them (everything after the call would then be proved from False)
+            raise Unsupported(f"contract of {c.qual} is applied at a call site but neither declares `pure` nor defines havoc()")
         old = c.snapshot(self, st, cargs)
         c.havoc(self, st, cargs)
         res = c.make_result(self, st, cargs)
         pf = c.post(self, st, cargs, old, res)
         if isinstance(pf, dict):
             pf = z3.And(*[v for k, v in pf.items() if not k.startswith("as-is")])
+        mark = len(st.pc)
         st.assume(pf, f"contract:{c.qual}")
+        if not self.dry:
+            # vacuity guard at the call site: the callee's postcondition must not turn a satisfiable path condition into a contradiction
+            after, _, _, _ = solve_cover(self.axioms + st.pc, 600)
+            if after == "vacuous":
+                before, _, _, _ = solve_cover(self.axioms + st.pc[:mark], 600)
+                if before != "vacuous":
+                    raise Unsupported(f"postcondition of {c.qual} contradicts the path condition at this call site (contract or model error)")
         return res if res is not None else NONE
 
     def inline(self, clo, args, kwargs, st):
@@ -2469,6 +2506,9 @@ class Executor:
             if r is not None:
                 return Scalar(r)
             return Scalar(z3.BoolVal(self.isinstance_(args[0], node.args[1], st)))
+        if name == "enumerate" and len(args) == 1 and isinstance(args[0], (Coll, TupleV)) and args[0].items is not None:
+            return self.coll_from_items("list", [TupleV([Scalar(z3.IntVal(i)), x]) for i, x in enumerate(args[0].items)]) if len(args[0].items) > 0 \
+                else Coll("list", None, None, items=[])
         if name == "enumerate" and len(args) == 1 and isinstance(args[0], Coll) and args[0].kind in ("list", "tuple") and args[0].items is None:
             # enumerate(seq) over an abstract sequence: the pairs (i, seq[i])
             c = args[0]
@@ -2813,7 +2853,11 @@ class Executor:
             any_exc = z3.Or(*exc.values()) if exc else z3.BoolVal(False)
             outs = self.exec_block(self.strip_doc(fdef.body), st)
             n_ret = 0
-            for s, o in outs:
+            for pi, (s, o) in enumerate(outs):
+                # vacuity guard per terminal path: the path condition (requires + callee postconditions + library facts + lemma
+                # instances assumed on the way) must not be contradictory, or everything below it would be proved from False
+                if os.environ.get("PYVC_PATH_COVERS"):   # dev aid: lists contradictory terminal paths (infeasible paths show up too)
+                    self.obligations.append(Obligation(f"{self.prefix}/path.cover#{pi}", self.axioms + s.pc, z3.BoolVal(False), kind="cover"))
                 if o.kind in ("return", "normal"):
                     res = o.value if o.kind == "return" else NONE
                     if self.is_generator(fdef):
